@@ -142,6 +142,27 @@ def alStep (s : St) (t : List String) : St × List String :=
   | ["balance"] =>
     -- every list is cleaned up; what is still live was dropped by the library without a release
     ({ s with als := List.replicate NLISTS none, leaked := 0 }, [s!"P live={s.leaked}"])
+  | ["fcap", cs, isz] =>
+    match parseSize? cs, parseSize? isz with
+    | some cs, some isz => if isz = 0 then (s, ["P skip"]) else (s, [s!"P cap={cs / isz}"])
+    | _, _ => (s, ["bad-op"])
+  | ["fvalid", len, cs, isz, dn] =>
+    -- aws_array_list_is_valid on a forged structure
+    match parseSize? len, parseSize? cs, parseSize? isz with
+    | some len, some cs, some isz =>
+      if dn ≠ "0" ∧ dn ≠ "1" then (s, ["bad-op"]) else
+      (s, [s!"P valid {if ArrayList.isValidRaw len cs isz (dn == "1") then 1 else 0}"])
+    | _, _, _ => (s, ["bad-op"])
+  | ["init_full", ls, n, isz, k0] =>
+    -- init_static_from_initialized over a raw array holding v<k0>, v<k0+1>, …
+    match parseL? ls, parseSize? n, parseSize? isz, parseSize? k0 with
+    | some k, some n, some isz, some k0 =>
+      if isz = 0 ∨ n = 0 ∨ n > LIMIT ∨ isz > LIMIT ∨ n * isz > LIMIT ∨ k0 > LIMIT then (s, ["P skip"]) else
+      let raw := ((List.range n).flatMap (fun i => ((parseVal? isz s!"v{k0 + i}").getD []))).map some
+      match ArrayList.initStaticFromInitialized raw n isz with
+      | .ok l => (putAL s k (some l), "P rc=OK" :: stateLines k l)
+      | .error e => (putAL s k none, [s!"P rc={errName e}"])
+    | _, _, _, _ => (s, ["bad-op"])
   | ["init_dyn", ls, n, isz] =>
     match parseL? ls, parseSize? n, parseSize? isz with
     | some k, some n, some isz =>
@@ -184,11 +205,18 @@ def alStep (s : St) (t : List String) : St × List String :=
     match parseL? ls with
     | none => (s, ["bad-op"])
     | some k =>
-      if op = "clean" ∧ args = [] then (putAL s k none, ["P rc=OK"]) else
+      if op = "clean" ∧ args = [] then (putAL s k none, ["P rc=OK", "P zeroed 1"]) else
+      if op = "clean_secure" ∧ args = [] then
+        -- dynamic storage is zeroed over all of current_size before it is released; caller's storage is left alone
+        let sec := match getAL s k with
+          | some l => if l.dyn ∧ l.data.length ≠ 0 then ["P secure ok"]
+                      else if !l.dyn then [s!"W raw fnv={hex64 (fnv (l.data.map byteOf))}"] else ["P secure none"]
+          | none => ["P secure none"]
+        (putAL s k none, ["P rc=OK", "P zeroed 1"] ++ sec) else
       match getAL s k with
       | none =>
         if op ∈ ["push_back", "push_front", "set", "pop_back", "pop_front", "pop_front_n", "erase", "clear", "shrink",
-                 "sort", "swap", "ensure", "calc", "front", "back", "get", "dump", "forged"] then (s, ["P skip"])
+                 "sort", "swap", "ensure", "calc", "front", "back", "get", "dump", "forged", "valid", "get_ptr"] then (s, ["P skip"])
         else (s, ["bad-op"])
       | some l =>
         match op, args with
@@ -250,6 +278,14 @@ def alStep (s : St) (t : List String) : St × List String :=
           | some i => (s, valOut (ArrayList.getAt l i))
           | none => (s, ["bad-op"])
         | "dump", [] => (s, dumpLines k l)
+        | "valid", [] => (s, [s!"P valid {if ArrayList.isValid l then 1 else 0}"])
+        | "get_ptr", [i] =>
+          match parseSize? i with
+          | some i =>
+            match ArrayList.getAtPtr l i with
+            | .ok off => (s, ["P rc=OK", s!"P off={off}"] ++ (valOut (ArrayList.getAt l i)).drop 1)
+            | .error e => (s, [s!"P rc={errName e}"])
+          | none => (s, ["bad-op"])
         | "forged", flen :: rest =>
           match parseSize? flen with
           | none => (s, ["bad-op"])
@@ -328,7 +364,9 @@ def namesLine (tag : String) (j : Nat) (r : Option (List Nat)) : String :=
 
 def llState (s : St) : List String :=
   ((List.range NLL).filter (isInit s)).flatMap (fun j =>
-    [namesLine "fwd" j (LinkedList.toList s.heap (llOf j) 12), namesLine "rev" j (LinkedList.toListRev s.heap (llOf j) 12)]) ++
+    [namesLine "fwd" j (LinkedList.toList s.heap (llOf j) 12), namesLine "rev" j (LinkedList.toListRev s.heap (llOf j) 12),
+     s!"P valid L{j} {if LinkedList.isValid s.heap (llOf j) then 1 else 0} {if LinkedList.isValidDeep s.heap (llOf j) 24 then 1 else 0} {if LinkedList.nodeIsInList s.heap (headId j) then 1 else 0} {if LinkedList.nodeIsInList s.heap (tailId j) then 1 else 0}"]) ++
+  [(List.range NNODES).foldl (fun acc k => acc ++ (if LinkedList.nodeIsInList s.heap k then "1" else "0")) "P inl "] ++
   ((List.range NNODES).filter (fun k => (whereOf s k).isNone)).map (fun k =>
     s!"P det n{k} {nameOf (s.heap k).next} {nameOf (s.heap k).prev}")
 
@@ -376,6 +414,29 @@ def llStep (s : St) (t : List String) : St × List String :=
           let res := if op = "insert_before" then LinkedList.insertBefore s.heap x k else LinkedList.insertAfter s.heap x k
           applyHeap s res (fun s => setWhere s k (some j)) ["P ok"]
       | _, _ => (s, ["bad-op"])
+    else if op = "fvalid" then
+      -- aws_linked_list_is_valid with one sentinel field corrupted for the call
+      match parseList? ls with
+      | none => (s, ["bad-op"])
+      | some j =>
+        if !isInit s j then (s, ["P skip"]) else
+        let h := s.heap
+        let h' : Option LinkedList.Heap :=
+          if ns = "hn" then some (LinkedList.setNext h (headId j) none)
+          else if ns = "hp" then some (LinkedList.setPrev h (headId j) (some (tailId j)))
+          else if ns = "tp" then some (LinkedList.setPrev h (tailId j) none)
+          else if ns = "tn" then some (LinkedList.setNext h (tailId j) (some (headId j)))
+          else none
+        match h' with
+        | none => (s, ["bad-op"])
+        | some h' => (s, [s!"P fvalid {if LinkedList.isValid h' (llOf j) then 1 else 0}"])
+    else if op = "fdeep" then
+      -- aws_linked_list_is_valid_deep with the prev link of one member cut for the call
+      match parseList? ls, parseNode? ns with
+      | some j, some k =>
+        if !isInit s j ∨ whereOf s k ≠ some j then (s, ["P skip"]) else
+        (s, [s!"P fdeep {if LinkedList.isValidDeep (LinkedList.setPrev s.heap k none) (llOf j) 24 then 1 else 0}"])
+      | _, _ => (s, ["bad-op"])
     else if op = "swap_nodes" then
       match parseNode? ls, parseNode? ns with
       | some a, some b =>
@@ -399,6 +460,22 @@ def llStep (s : St) (t : List String) : St × List String :=
           applyHeap s r (fun s => { s with wher := s.wher.map (fun w => if w == some b then some a else w) }) ["P ok"]
       | _, _ => (s, ["bad-op"])
     else (s, ["bad-op"])
+  | ["probe", ns, as, bs] =>
+    -- node_next_is_valid / node_prev_is_valid / node_is_in_list of a detached node whose links are set for the call
+    let pr (t : String) : Option (Option Nat) :=
+      if t = "null" then some none else
+      match parseRef? t with
+      | some (.node k) => some (some k)
+      | some (.hd j) => some (some (headId j))
+      | some (.tl j) => some (some (tailId j))
+      | none => none
+    match parseNode? ns, pr as, pr bs with
+    | some k, some a, some b =>
+      if (whereOf s k).isSome then (s, ["P skip"]) else
+      let h := LinkedList.setNode s.heap k ⟨a, b⟩
+      let bit (x : Bool) : Nat := if x then 1 else 0
+      (s, [s!"P probe {bit (LinkedList.nodeNextIsValid h k)} {bit (LinkedList.nodePrevIsValid h k)} {bit (LinkedList.nodeIsInList h k)}"])
+    | _, _, _ => (s, ["bad-op"])
   | [op, x] =>
     if op = "pop_back" ∨ op = "pop_front" then
       match parseList? x with
@@ -412,6 +489,14 @@ def llStep (s : St) (t : List String) : St × List String :=
           let s' := { s with heap := h }
           let s' := if n < NNODES then setWhere s' n none else s'
           fin s' [s!"P pop {nameOf (some n)}"]
+    else if op = "begin" ∨ op = "end" ∨ op = "rbegin" ∨ op = "rend" then
+      match parseList? x with
+      | none => (s, ["bad-op"])
+      | some j =>
+        if !isInit s j then (s, ["P skip"]) else
+        let r := if op = "begin" then LinkedList.begin_ s.heap (llOf j) else if op = "end" then some (tailId j)
+                 else if op = "rbegin" then LinkedList.rbegin s.heap (llOf j) else some (headId j)
+        (s, [s!"P {op} {nameOf r}"])
     else if op = "remove" then
       match parseNode? x with
       | none => (s, ["bad-op"])
